@@ -8,6 +8,7 @@
 //! specs: leaf | priv:N | pub:M:N | sort:n | lt:left:nlog | enf:bound:nlog | eq | privfull:N | pubfull:M:N
 mod ir;
 mod leafgen;
+mod poolrun;
 
 use plonky2::field::types::{Field, PrimeField64};
 use plonky2::iop::generator::GeneratedValues;
@@ -803,6 +804,7 @@ fn main() {
         "emit" => cmd_emit(&args[2..]),
         "replay" => cmd_replay(&args[2..]),
         "call" => cmd_call(&args[2..]),
+        "poolrun" => poolrun::run(&args[2..]),
         _ => panic!("usage: csx-emit emit|replay ..."),
     }
 }
